@@ -3,7 +3,7 @@ import PnVerif.Model.World
   C08 correspondence driver.  One case per line on stdin (the line the C harness harness/c08_coll.c
   executes, see there), one answer per line on stdout:
 
-    CASE <id> <api> <fix|rec> safe= hcoll= aggr= indep= nr= [x=..] [lay=..] [rp=zfmbv] | <in rank0> | <in rank1> ...
+    CASE <id> <api> <fix|rec> safe= hcoll= aggr= indep= nr= [x=..] [lay=..] [rp=zfmbvs] | <in rank0> | <in rank1> ...
       ->  <id> ret=<code> tr=<tok,..|-> trig=<0|1> | ... (one group per rank) || M completed
                                                                                  || M stuck <entered rank0> <entered rank1> ...
 
@@ -160,11 +160,11 @@ def doCase (line : String) : String :=
     | "CASE" :: id :: api :: vk :: _ =>
       let isRec := vk == "rec"
       let nr0 := kvNat ws "nr" 0
-      let rpS := (kvOf ws "rp").getD "00000"
+      let rpS := (kvOf ws "rp").getD "000000"
       let rpc := rpS.toList
       let rp : Repairs := { zeroPathNumrecs := rpc[0]? == some '1', fillVarRecErr := rpc[1]? == some '1',
                             metaErrJoins := rpc[2]? == some '1', zeroPathBadVarid := rpc[3]? == some '1',
-                            vardGuard := rpc[4]? == some '1' }
+                            vardGuard := rpc[4]? == some '1', safeMinCode := rpc[5]? == some '1' }
       let L := parseLayout ((kvOf ws "lay").getD "")
       let cfg : Cfg := { safe := kvNat ws "safe" 0 == 1, hcoll := kvNat ws "hcoll" 0 == 1, aggr := kvNat ws "aggr" 0 == 1,
                          indep := kvNat ws "indep" 0 == 1 || api == "end_indep", indef := api == "close_def" || (api.startsWith "meta_" && kvNat ws "dm" 0 == 0),
@@ -184,7 +184,7 @@ def doCase (line : String) : String :=
         | some world =>
           let traces := world.map (localTrace rp a cfg world)
           let groups := world.map fun x =>
-            s!"ret={localRet a cfg world x} tr={showTrace (localTrace rp a cfg world x)} trig={if decide (Trigger rp a cfg x) then 1 else 0}"
+            s!"ret={localRet rp a cfg world x} tr={showTrace (localTrace rp a cfg world x)} trig={if decide (Trigger rp a cfg x) then 1 else 0}"
           id ++ " " ++ String.intercalate " | " groups ++ " || " ++ matchReport traces
     | _ => "bad-line"
 
